@@ -40,6 +40,7 @@ MAP = {  # commit subject (after "fix: ") -> (properties, what failed, which che
  "polars scalar failure cases are rendered as text like the row-level ones": (["C06", "C02"], "polars validate(lazy=True) leaked polars.exceptions.SchemaError when a check with a scalar False output (or a failed coercion of a stand-alone Column) was collected next to row-level failure cases", "C02/C06 PL/LZ/ab/.../scalar_check=True lazy/channel"),
  "check_types validates a single value passed through *args": (["C17"], "check_types on f(*frames: DataFrame[M]) called with exactly one frame: the frame was not validated and the body received ((df,),)", "C17 types-varargs1 decorator/gate, body_receives_validated, other_arguments_unchanged (the behaviour was first described by a mutation sub-agent's notes)"),
  "check_input with the default argument works on bound methods": (["C17"], "check_input(schema)(obj.method) (default designation, bound method object) raised IndexError on every call; designation by name or index worked", "C17 bound-none decorator/channel, outcome_as_direct_validation (the behaviour was first described by a mutation sub-agent's notes)"),
+ "str_length strategy supports an open bound": (["C13"], "drawing from a schema with Check.str_length(None, n) or str_length(n, None) raised InvalidArgument / TypeError instead of producing data", "C13 thorough str/isin>str_length>eq: the stub's eager filter raised TypeError where the real (lazy) strategy construction succeeded — reported as a shim/real disagreement once len() of a symbolic string was modelled; confirmed by drawing from the real strategy"),
  "in_range strategy honours exclusive bounds for integer dtypes": (["C13"], "Check.in_range(0, 1, include_max=False) on an int column synthesised 1 (hypothesis ignores exclude_* for integers)", "C13 int/in_range draws_satisfy_checks (replayed with hypothesis.find)"),
 }
 
